@@ -18,13 +18,14 @@ def run(ctx):
     ctx.rule("C18.R1", "K4", "Worker.__init__: max_requests = cfg.max_requests + randint(0, jitter) iff cfg.max_requests > 0, else never (sys.maxsize)")
     ctx.rule("C18.R2", "K6", "each handle_request sibling counts every request exactly once before the app call; limit test `nr >= max_requests` after the increment clears `alive`; keep-alive capable workers force close")
     ctx.rule("C18.R3", "K2", "the request that reaches the limit is still answered: no exit before resp.close() depends on the limit or on `alive`")
-    ctx.rule("C18.R4", "K2/K4", "(= C03.R2/R6 + C04.R3) the worker leaves its loop and the master replaces it")
+    ctx.rule("C18.R4", "K2/K4", "(= C03.R2/R5/R6 + C04.R3) the worker leaves its loop; the master reaps every exited worker (also several at once) and replaces it")
     ctx.rule("C18.R5", "K2", "the (non-concurrent) sync worker re-checks `alive` between any two accepts")
     r1(ctx)
     r2(ctx)
     r3(ctx)
     r5(ctx)
     _alias(ctx, c03.r2, "C03.R2", "C18.R4")
+    _alias(ctx, c03.r5, "C03.R5", "C18.R4")
     _alias(ctx, c04.r3, "C04.R3", "C18.R4")
 
 
